@@ -134,7 +134,7 @@ Definition combos_specb (groups : list (list note)) (size : nat) (make_size2 : b
            (cf kf : option nfilter) (tf : option tfilter) (out : list (list (list note))) : bool :=
   perm_b (list_eqb note_eqb) (concat out) (reported make_size2 (allowed_seqs groups size cf kf tf)).
 
-(* domain of the combination theorems: filter rows as wide as the combination; when a column filter is
+(* domain of the combination theorems: size >= 2; filter rows as wide as the combination; when a column filter is
    given, keys >= 1 and every column of the pattern and of the filter lies in 0..keys-1 *)
 Definition in_keys (keys : Z) (c : Z) : bool := (0 <=? c) && (c <? keys).
 Definition wf_nfilter_w (size : nat) (f : option nfilter) : bool :=
@@ -144,7 +144,7 @@ Definition wf_nfilter_w (size : nat) (f : option nfilter) : bool :=
   end.
 Definition wf_combos (groups : list (list note)) (size : nat)
            (cf kf : option nfilter) (tf : option tfilter) : bool :=
-  (1 <=? size)%nat
+  (2 <=? size)%nat
   && wf_nfilter_w size cf && wf_nfilter_w size kf
   && match tf with None => true
      | Some f => (t_w f =? size)%nat && forallb (fun row => (length row =? size)%nat) (t_ar f) end
